@@ -267,12 +267,25 @@ Error String::_op_string(ModifyOp op, const char* str, size_t size) noexcept {
     return op == ModifyOp::kAssign ? clear() : Error::kOk;
   }
 
+  // `str` can point into the content of this string - `prepare()` may move the content to a new buffer (appending keeps
+  // it at the same offset), so remember the offset instead of using a pointer to released memory.
+  const char* self_data = data();
+  size_t self_offset = SIZE_MAX;
+
+  if (op == ModifyOp::kAppend && uintptr_t(str) - uintptr_t(self_data) < uintptr_t(this->size())) {
+    self_offset = size_t(uintptr_t(str) - uintptr_t(self_data));
+  }
+
   char* p = prepare(op, size);
   if (!p) {
     return make_error(Error::kOutOfMemory);
   }
 
-  memcpy(p, str, size);
+  if (self_offset != SIZE_MAX) {
+    str = data() + self_offset;
+  }
+
+  memmove(p, str, size);
   return Error::kOk;
 }
 
